@@ -36,6 +36,12 @@ def hostile_sources():
         out.append(src_from_clauses([clause(C("cf2", V(0)), call(C("$CUTIF", A(h))))], label="hostile-cutif-alone:" + repr(h)[:30]))
         out.append(src_from_clauses([clause(C("cf4", V(0)), and_(call(C("q", V(0))), and_(call(C("$CUTIF", A(h))), call(C("q", V(0))))))], label="hostile-cutif-mid:" + repr(h)[:30]))
         out.append(src_from_clauses([clause(C("cf3", V(0)), or_(then(call(C("q", V(0))), call(C("$CUTIF", A(h)))), TRUE))], label="hostile-cutif-ite:" + repr(h)[:30]))
+    # the same kind of text with every debug option on: debug messages quote atoms of the source
+    for h in ["a\rimport os", "a\nimport os", "x\r\ny = 1", "ok\rdef f(): pass", "b\x0bc", "b\x0cc", "z\u2028q = 1", "w\x85v = 2", "line one\nline two", "plain"]:
+        for i, cls in enumerate([[clause(C("p1", A(h)))], [clause(C("p3", V(0)), call(C(h, V(0))))], [clause(C("p2", C(h, V(0), A("k"))), call(C("=", V(0), A(h))))]]):
+            s = src_from_clauses(cls, label="debug-on:%r:%d" % (h[:20], i))
+            s.debug = True
+            out.append(s)
     return out
 
 
